@@ -18,10 +18,12 @@ def extract_values(trace):
     for s in trace:
         if s.get("stepType") != "assignment":
             continue
-        if s.get("lhs") != "kv_nondet":
+        # the value a kv::any_* call returned (the local `kv_nondet` is also "assigned" once at its
+        # declaration with an arbitrary value, so the return-value assignment is the reliable one)
+        if not str(s.get("lhs", "")).startswith("goto_symex$$return_value$$"):
             continue
         fn = (s.get("sourceLocation") or {}).get("function", "")
-        if "kv::imp::any_" not in fn and "kv::any_" not in fn:
+        if not fn.startswith("kv::imp::any_"):
             continue
         v = s.get("value", {})
         b = v.get("binary")
@@ -38,7 +40,9 @@ def get_trace(rec, r, log, timeout):
     goto = rec["goto"]
     jf = goto + ".trace.json"
     extra = ["--trace", "--property", r["property"]]
-    rc, wall = pl.run_cbmc(goto, rec.get("unwind"), timeout, max(rec.get("mem_gb", 8), 8), jf, extra)
+    # no formula slicing here: a sliced formula leaves nondet values outside the failing check's cone
+    # unassigned in the trace, and the replay needs every value in call order
+    rc, wall = pl.run_cbmc(goto, rec.get("unwind"), timeout, max(rec.get("mem_gb", 8) * 2, 16), jf, extra, slice_formula=False)
     try:
         data = json.load(open(jf))
     except Exception:
